@@ -616,7 +616,11 @@ func (f *Frame) havocFor(callee *ssa.Function, blk *Block, cc *ssa.CallCommon, s
 	}
 	var ms *modSet
 	if callee != nil && len(callee.Blocks) > 0 && inModule(callee) {
-		ms = c.eng.modset(callee)
+		ms = &modSet{keys: map[string]bool{}}
+		ms.add(c.eng.modset(callee))
+		for _, fa := range c.eng.funcArgCallees(cc) {
+			ms.add(c.eng.modset(fa))
+		}
 	} else {
 		ms = &modSet{keys: map[string]bool{}}
 		d := &modSet{keys: ms.keys}
@@ -738,6 +742,9 @@ func (f *Frame) opaqueCall(in ssa.Instruction, cc *ssa.CallCommon, callee *ssa.F
 	if callee != nil && inModule(callee) && len(callee.Blocks) > 0 {
 		ms := &modSet{keys: map[string]bool{}}
 		ms.add(c.eng.modset(callee))
+		for _, fa := range c.eng.funcArgCallees(cc) {
+			ms.add(c.eng.modset(fa))
+		}
 		fake := &ssa.Call{Call: *cc}
 		c.eng.directWrites(f.fn, fake, ms)
 		f.havocKeys(ms, st)
